@@ -292,7 +292,17 @@ pub fn run(seed: u64, shard: u64, cases: u64, only: Option<u64>, rep: &mut Repor
     // the documented default ports must be free: this engine is the only thing that may use them
     let defaults: [u16; 7] = [9814, 8814, 8332, 18332, 18443, 38332, 50051];
     for p in defaults {
-        if TcpListener::bind(("127.0.0.1", p)).is_err() {
+        // (38332 and 50051 lie in the ephemeral range: an outgoing connection of any process may be using the number for a
+        // moment, so the port is given half a minute to become free before the engine gives up)
+        let mut free = false;
+        for _ in 0..30 {
+            if TcpListener::bind(("127.0.0.1", p)).is_ok() {
+                free = true;
+                break;
+            }
+            std::thread::sleep(std::time::Duration::from_secs(1));
+        }
+        if !free {
             r.eval();
             r.inconclusive += 1;
             r.note(format!("e3cfg: the documented default port {p} is in use on this machine; the binary-level configuration check did not run"));
